@@ -5,10 +5,11 @@
   Input lines (stdin), see harness/c16.cpp and the header of IcingaModel/C16/Spec.lean:
     C <n> <tag>
     K <NAME> <val>
+    U <name> <val>                                    (top-level `var`, captured by rules with u=<name,..>)
     H <name> <os> <groups> <arr> <dict> <mix>
     S <host> <short> <os> <groups> <arr> <dict> <mix>
     O <i> <dsl text ...>                              | h=<bits> s=<bits>          (oracle: value of atom i per target)
-    R <id> <src> <tgt> <name> <for> <fk> <fv> <bodyhost> [a=<expr>].. [i=<expr>]..
+    R <id> <src> <tgt> <name> <for> <fk> <fv> <bodyhost> [a=<expr>].. [i=<expr>].. [u=<name,..>]..
     L <concs>                                         | p1=<res> w1=<res> [p16=<res> w16=<res>]
     A <H|S> <expr> <fv>                               | fast=<ares> slow=<ares> dups=<n>
   Output lines:
@@ -142,6 +143,7 @@ structure RuleRec where
 
 structure DSt where
   consts : List (String × Val) := []
+  uvars : List (String × Val) := []
   hosts : List (String × VarsRec) := []
   services : List ((String × String) × VarsRec) := []
   atoms : List (Nat × List (Option Val) × List (Option Val)) := []
@@ -165,7 +167,9 @@ structure DSt where
   rejPlain : Nat := 0
   diverge : Nat := 0
   specSilent : Nat := 0
-  cascadeSkipped : Nat := 0
+  cascade : Nat := 0
+  cascadeCreated : Nat := 0
+  rulesUse : Nat := 0
   api : Nat := 0
   apiFast : Nat := 0
   apiFastNonEmpty : Nat := 0
@@ -239,21 +243,17 @@ def ruleOf (d : DSt) (id : Nat) : Option RuleRec := d.rules.find? (·.id == id)
 
 /-- canonical text of a created object, as the harness prints it -/
 def showCreated (d : DSt) (c : Created) : String :=
-  match ruleOf d c.rule with
-  | none => "?"
-  | some rr =>
-    let r := rr.rule
-    let e := expectedObj r c.target (⟨c.key, c.binds⟩ : Inst)
-    let hn := if rr.bodyHost then "'" ++ targetHostName c.target else "-"
-    let sn := if rr.bodyHost then (match targetServiceName c.target with | some s => "'" ++ s | none => "-") else "-"
-    s!"{srcName e.src}/{e.name}/{showVal e.k}/{showVal e.v}/{hn}/{sn}"
+  let e := render c
+  let bodyHost := match ruleOf d c.rule with
+    | some rr => rr.bodyHost
+    | none => false
+  let hn := if bodyHost then "'" ++ targetHostName c.target else "-"
+  let sn := if bodyHost then (match targetServiceName c.target with | some s => "'" ++ s | none => "-") else "-"
+  s!"{srcName e.src}/{e.name}/{showVal e.k}/{showVal e.v}/{hn}/{sn}"
 
 def depParent : String := "zp"
 
-def isSelfDep (d : DSt) (c : Created) : Bool :=
-  match ruleOf d c.rule with
-  | some rr => rr.rule.src == .dependency && c.target == .host depParent
-  | none => false
+def isSelfDep (c : Created) : Bool := c.src == .dependency && c.target == .host depParent
 
 def hasDup : List String → Bool
   | [] => false
@@ -269,7 +269,7 @@ def dupNames (exp : List ObjObs) : Bool := hasDup (exp.map fun o => srcName o.sr
 def showLoad (d : DSt) : LoadResult → String
   | .rejected => "rejected"
   | .accepted l =>
-    if l.any (isSelfDep d) then "rejected" else
+    if l.any isSelfDep then "rejected" else
     let ss := sortStrs (l.map (showCreated d))
     if hasDup (ss.map objKey) then "rejected" else
     "ok:" ++ (if ss.isEmpty then "-" else ",".intercalate ss)
@@ -312,20 +312,16 @@ def handleL (d : DSt) (n : Nat) (post : List String) : IO DSt := do
   let w := world d
   let inv := inventory d
   let rules : Rules := d.rules.map fun rr => (rr.id, rr.rule)
-  let mIdx := indexed w rules inv
-  let mPlain := plain w rules inv
+  let mIdx := indexedFull w rules inv
+  let mPlain := plainFull w rules inv
   let sIdx := showLoad d mIdx
   let sPlain := showLoad d mPlain
-  -- services created by `apply Service` rules become targets of `to Service` rules (configitem.cpp:586-588 commits the
-  -- generated items recursively); the model takes the set of targets as given, so such a case is outside it
-  let createsService (lr : LoadResult) : Bool := match lr with
-    | .accepted l => l.any fun c => match ruleOf d c.rule with
-        | some rr => rr.rule.src == .service
-        | none => false
-    | .rejected => false
-  if (createsService mIdx || createsService mPlain) && d.rules.any (fun rr => rr.rule.tgt == .service) then
-    return { d with cascadeSkipped := d.cascadeSkipped + 1 }
-  let mut d := { d with steps := d.steps + 1, loads := d.loads + 1 }
+  -- the cascade: services created by `apply Service` rules that are targets of `to Service` rules
+  let nCreatedSvc := (createdServices (indexedOutcomes w rules inv)).length
+  let isCascade := nCreatedSvc > 0 && d.rules.any (fun rr => rr.rule.tgt == .service)
+  let mut d := { d with steps := d.steps + 1, loads := d.loads + 1,
+                        cascade := d.cascade + (if isCascade then 1 else 0),
+                        cascadeCreated := d.cascadeCreated + (if isCascade then nCreatedSvc else 0) }
   -- statistics of the case
   for rr in d.rules do
     let r := rr.rule
@@ -334,8 +330,9 @@ def handleL (d : DSt) (n : Nat) (post : List String) : IO DSt := do
                   rulesRegular := d.rulesRegular + (if tgtd then 0 else 1),
                   rulesFor := d.rulesFor + (if r.fterm.isSome then 1 else 0),
                   rulesIgnore := d.rulesIgnore + (if r.ignore.isEmpty then 0 else 1),
+                  rulesUse := d.rulesUse + (if r.scope.isEmpty then 0 else 1),
                   rulesShadow := d.rulesShadow + (if r.fkvar == "host" || r.fkvar == "service" || r.fvvar == "host" || r.fvvar == "service" then 1 else 0) }
-  d := { d with evals := d.evals + (plainOutcomes w rules inv).length }
+  d := { d with evals := d.evals + (plainOutcomes w rules (extend inv (plainOutcomes w rules inv))).length }
   match mIdx with
   | .accepted l =>
     let byIndex := l.filter fun c => match ruleOf d c.rule with
@@ -447,12 +444,15 @@ def handleR (d : DSt) (n : Nat) (pre : List String) : IO DSt := do
   | _ :: idS :: srcS :: tgtS :: name :: forS :: fk :: fv :: bh :: exprs =>
     let assign := exprs.filterMap fun x => if x.startsWith "a=" then some (x.drop 2).toString else none
     let ignore := exprs.filterMap fun x => if x.startsWith "i=" then some (x.drop 2).toString else none
-    if assign.length + ignore.length != exprs.length then return (← bad d n)
+    let uses := (exprs.filterMap fun x => if x.startsWith "u=" then some (splitC (x.drop 2).toString) else none).flatten
+    if assign.length + ignore.length + (exprs.filter (·.startsWith "u=")).length != exprs.length then return (← bad d n)
+    if uses.any (fun u => (d.uvars.lookup u).isNone) then return (← bad d n)
+    let scope := uses.filterMap fun u => (d.uvars.lookup u).map fun v => (u, v)
     match idS.toNat?, parseSrc srcS, parseTgt tgtS, mkFterm d forS, assign.mapM parseExpr, ignore.mapM parseExpr,
           parseBool? bh with
     | some id, some src, some tgt, some fterm, some as, some is, some bodyHost =>
       let r : Rule := { src := src, tgt := tgt, name := name, assign := as, ignore := is, fterm := fterm,
-                        fkvar := if fk == "-" then "" else fk, fvvar := if fv == "-" then "" else fv }
+                        fkvar := if fk == "-" then "" else fk, fvvar := if fv == "-" then "" else fv, scope := scope }
       return { d with rules := d.rules ++ [{ id := id, rule := r, bodyHost := bodyHost }] }
     | _, _, _, _, _, _, _ => bad d n
   | _ => bad d n
@@ -466,7 +466,7 @@ def handle (d : DSt) (n : Nat) (line : String) : IO DSt := do
   | [] => return d
   | "C" :: _ =>
     let d := closeCase d
-    return { d with consts := [], hosts := [], services := [], atoms := [], rules := [],
+    return { d with consts := [], uvars := [], hosts := [], services := [], atoms := [], rules := [],
                     caseNo := d.caseNo + 1, caseHash := 7 }
   | w0 :: _ =>
     if w0.startsWith "#" || w0 == "STATS" then return d
@@ -475,6 +475,10 @@ def handle (d : DSt) (n : Nat) (line : String) : IO DSt := do
     | ["K", name, v] =>
       match parseVal v with
       | some val => return { d with consts := d.consts ++ [(name, val)] }
+      | none => bad d n
+    | ["U", name, v] =>
+      match parseVal v with
+      | some val => return { d with uvars := d.uvars ++ [(name, val)] }
       | none => bad d n
     | ["H", name, _os, _groups, arr, dict, mix] =>
       match parseVarsRec arr dict mix with
@@ -500,4 +504,4 @@ def main : IO Unit := do
   let stdin ← IO.getStdin
   let d ← foldLines stdin handle ({} : DSt)
   let d := closeCase d
-  IO.println s!"STATS cases={d.caseNo} steps={d.steps} loads={d.loads} load_runs={d.loadRuns} evaluations={d.evals} rules_targeted={d.rulesTargeted} rules_regular={d.rulesRegular} rules_for={d.rulesFor} rules_ignore={d.rulesIgnore} rules_loopvar_shadow={d.rulesShadow} created={d.createdIndexed} created_by_index={d.createdByIndex} rejected_indexed={d.rejIndexed} rejected_plain={d.rejPlain} model_index_vs_plain_diverge={d.diverge} spec_silent={d.specSilent} cascade_skipped={d.cascadeSkipped} api={d.api} api_recognised={d.apiFast} api_fast_nonempty={d.apiFastNonEmpty} api_dups={d.apiDups} api_err={d.apiErr} api_model_diverge={d.apiDiverge} nontrivial={d.nontrivial} mismatches={d.mismatches} specfails={d.specfails} badlines={d.badlines}"
+  IO.println s!"STATS cases={d.caseNo} steps={d.steps} loads={d.loads} load_runs={d.loadRuns} evaluations={d.evals} rules_targeted={d.rulesTargeted} rules_regular={d.rulesRegular} rules_for={d.rulesFor} rules_ignore={d.rulesIgnore} rules_loopvar_shadow={d.rulesShadow} created={d.createdIndexed} created_by_index={d.createdByIndex} rejected_indexed={d.rejIndexed} rejected_plain={d.rejPlain} model_index_vs_plain_diverge={d.diverge} spec_silent={d.specSilent} cascade_cases={d.cascade} cascade_services={d.cascadeCreated} rules_use={d.rulesUse} api={d.api} api_recognised={d.apiFast} api_fast_nonempty={d.apiFastNonEmpty} api_dups={d.apiDups} api_err={d.apiErr} api_model_diverge={d.apiDiverge} nontrivial={d.nontrivial} mismatches={d.mismatches} specfails={d.specfails} badlines={d.badlines}"
